@@ -31,6 +31,7 @@ from pdfminer.pdftypes import (
     PDFObjRef,
     PDFStream,
     dict_value,
+    int_value,
     list_value,
     resolve1,
     stream_value,
@@ -405,12 +406,12 @@ class PDFPageInterpreter:
             return
 
         def get_colorspace(spec: object) -> Optional[PDFColorSpace]:
-            if isinstance(spec, list):
+            if isinstance(spec, list) and spec:
                 name = literal_name(spec[0])
             else:
                 name = literal_name(spec)
             if name == "ICCBased" and isinstance(spec, list) and len(spec) >= 2:
-                return PDFColorSpace(name, stream_value(spec[1])["N"])
+                return PDFColorSpace(name, int_value(stream_value(spec[1]).get("N")))
             elif name == "DeviceN" and isinstance(spec, list) and len(spec) >= 2:
                 return PDFColorSpace(name, len(list_value(spec[1])))
             else:
